@@ -197,6 +197,15 @@ def run(C, R):
                         any(x[0] == 'init' and loc_endswith(x[1], 'cap') for x in k[2:4] if isinstance(x, tuple)):
                     if (k[1] == 'Ne' and v == ('eq', 1)) or (k[1] == 'Eq' and v == ('eq', 0)):
                         guarded = True
+                # ... or len != the VecDeque's own capacity() (push_back reallocates only at len == capacity)
+                if isinstance(k, tuple) and k and k[0] == 'bin' and k[1] in ('Ne', 'Eq'):
+                    rets = {}
+                    for e in path.events:
+                        if e['k'] == 'call' and e['name'] in ('len', 'capacity') and 'VecDeque' in e['callee']:
+                            rets[e['ret']] = e['name']
+                    if sorted(rets.get(x) or '' for x in k[2:4]) == ['capacity', 'len'] and \
+                            ((k[1] == 'Ne' and v == ('eq', 1)) or (k[1] == 'Eq' and v == ('eq', 0))):
+                        guarded = True
             if guarded and path.exit == 'return':
                 R.ok('C18.B3', '%s|push_back under len != cap' % push['path'])
             elif path.exit == 'return':
@@ -205,7 +214,10 @@ def run(C, R):
                        'pre-allocated ring may grow', '%s:%s' % (push['file'], push['line']),
                        {'trace': trace_summary(path)})
         wc = F.one_fn(impl_adt=FIXED, name='with_capacity')
-        for path in E.run(wc['path']):
+        has_cap_field = any(f['name'] == 'cap' for f in F.adt(FIXED)['variants'][0]['fields'])
+        if not has_cap_field:
+            R.ok('C18.B3', '%s|no stored limit: push is bounded by VecDeque::capacity() itself' % wc['path'])
+        for path in (E.run(wc['path']) if has_cap_field else []):
             calls = [e for e in path.events if e['k'] == 'call' and e['name'] == 'with_capacity']
             rv = path.ret
             cap = dict(rv[3]).get('cap') if rv[0] == 'agg' else None
